@@ -378,4 +378,9 @@ for _p in ['C06', 'C07', 'C09', 'C10', 'C11', 'C12', 'C13', 'C14', 'C17', 'C18',
     PROPS[_p]['translator'] = True
     PROPS[_p]['trusted'] = list(PROPS[_p]['trusted']) + [
         'translator/scan_resolver.py / translator/scan_api.py (regular expressions: control keywords, calls, Operator:: names, mode names and assignments of the functions the model transcribes, in source order); they tie the *shape* of the code to the reviewed copy the model was written against, not its expressions - a changed operand or comparison inside an unchanged skeleton is left to the correspondence check']
+for _p, _what in [('C05', 'translator/scan_writes.py (regular expressions: every assignment through a field path, mutable borrow and mutating call in `encode_internal`, in source order; a write through an alias the patterns do not recognise as mutating is not listed and is left to the correspondence check)'),
+                   ('C23', 'translator/scan_sidefx.py (regular expressions: every call of `add_injection` with its literal key, record variant and field names, and the (mode, list) pairs of the probe closures; fails closed on a call whose key or record is not literal)'),
+                   ('C28', 'translator/scan_api.py in word-for-word mode for the six `CustomSections` functions (white space normalised; any change of their text breaks the obligation)')]:
+    PROPS[_p]['translator'] = True
+    PROPS[_p]['trusted'] = list(PROPS[_p]['trusted']) + [_what]
 ALL_IDS = ['C%02d' % i for i in range(1, 31)]
